@@ -129,3 +129,72 @@ Definition c03_mloc_oracle (sc : scenario) (o : observation) : option bool :=
       end
   | _ => None
   end.
+
+(* ------------------------------------------------------------------ C04: recovery operators against RetryLoc's specification *)
+From RX Require Import RetryLoc Loc.
+
+Fixpoint split_recovery (ops : list opk) : option (list opk * opk * list opk) :=
+  match ops with
+  | [] => None
+  | op :: r => match op with
+               | ORetry _ | ORetryWhen _ => Some ([], op, r)
+               | _ => match split_recovery r with Some (pre, x, post) => Some (op :: pre, x, post) | None => None end
+               end
+  end.
+
+Definition extend_attempts (atts : list (list ev)) (n : nat) : list (list ev) :=
+  atts ++ repeat (last atts []) (n - length atts).
+
+Definition c04_oracle (sc : scenario) (o : observation) : option bool :=
+  match sc_script sc with
+  | [DSub 0 p []] =>
+      match p with
+      | POp OResume inner others =>
+          (* items before the error, then the observable the function returns for that error *)
+          match spec_pipe (scripts_of sc) inner, chain_of inner with
+          | Some (xs, en), Some (_, iops) =>
+              if negb (forallb loc_supported iops) then None else
+              let exp := match en with
+                         | Fails e => match spec_pipe (scripts_of sc) (resume_pipe others e) with
+                                      | Some r => Some (map Nx xs ++ events r)
+                                      | None => None
+                                      end
+                         | _ => Some (events (xs, en))
+                         end in
+              match exp with
+              | Some ex => Some (Nat.eqb (ob_out o) 0 && evs_sim (ulog (uenc (UTop 0)) (ob_log o)) ex)
+              | None => None
+              end
+          | _, _ => None
+          end
+      | _ =>
+          match chain_of p with
+          | Some (PCold 0, ops) =>
+              match split_recovery ops with
+              | Some (pre, rop, post) =>
+                  if negb (forallb loc_supported pre && forallb loc_supported post) then None else
+                  let atts := extend_attempts (scripts_of sc 0) 8 in
+                  if negb (forallb (fun l => match parse_script l with Some _ => true | None => false end) atts) then None else
+                  let inner := map (fun l => parse_script (loc_chain pre l)) atts in
+                  if negb (forallb (fun x => match x with Some _ => true | None => false end) inner) then None else
+                  let souts := flat_map (fun x => match x with Some s => [s] | None => [] end) inner in
+                  let '(exp, m) := match rop with
+                                   | ORetry n => spec_retry n souts
+                                   | ORetryWhen pd => spec_retry_when pd souts
+                                   | _ => ([], 0)
+                                   end in
+                  if Nat.leb 8 m then None            (* the budget was not exhausted within the attempts the scenario describes *)
+                  else
+                    let final := loc_chain post exp in
+                    let made := length (nodup Nat.eq_dec (map (fun pr : nat * nat * nat * bool * nat * nat => let '(_, att, _, _, _, _) := pr in att) (ob_probes o))) in
+                    (* an operator downstream that has all it needs ends the subscription before later attempts are made *)
+                    let ends_early := existsb (fun x => match x with OTake _ | OTakeWhile _ | OFirst | OElementAt _ | OContains _ | OAll _ | ODematerialize => true | _ => false end) post in
+                    Some (Nat.eqb (ob_out o) 0 && evs_sim (ulog (uenc (UTop 0)) (ob_log o)) final &&
+                          (if ends_early then Nat.leb made m else Nat.eqb made m))
+              | None => None
+              end
+          | _ => None
+          end
+      end
+  | _ => None
+  end.
